@@ -20,7 +20,7 @@ RULE = ("Random subsets (1-8) and values of the documented appearance options on
         "margins disable the tight bounding box. (styles) -lc/-ls/-lw/-ma/-ms (with cycling, optionally -leg) on 17 kinds of plot "
         "that draw one labelled series per input (obsfcst, qq, scatter, error, taylor, performance, reliability, freq, roc, "
         "timeseries, spreadskill, marginal and standard plots over time/location/threshold/leadtime): the k-th input's series "
-        "carries the k-th value. Non-trivial: >=3 appearance options in one run, or a style list with >=2 different values; "
+        "carries the k-th value. (single-options) exhaustively every kind of figure x option x value, one option at a time. Non-trivial: >=3 appearance options in one run, or a style list with >=2 different values; "
         "distinct by hash of (kind, options).")
 ASSUMPTIONS = [
     "titles/labels are generated without '_' (its replacement by a space is documented for -leg only)",
@@ -48,8 +48,8 @@ OPTIONS = {
     "xticklabels": (["line", "pithist", "igncontrib"], st.sampled_from([["a", "b", "c"], ["first", "second"]])),
     "yticks": (["line", "bar", "pithist", "igncontrib", "obsfcst", "qq", "freq", "roc", "timeseries", "scatter", "marginal", "spreadskill", "error", "cond"], st.sampled_from([[0.5, 1.0, 2.0], [1.0, 4.0]])),
     "yticklabels": (["line", "bar", "pithist", "igncontrib", "obsfcst", "qq", "freq", "roc", "timeseries", "scatter", "marginal", "spreadskill", "error", "cond"], st.sampled_from([["lo", "mid", "hi"], ["p", "q"]])),
-    "xrot": (["line", "pithist", "igncontrib", "obsfcst", "qq", "freq", "roc", "timeseries", "scatter", "marginal", "spreadskill", "error", "cond"], st.sampled_from([45.0, 90.0, 30.0])),
-    "yrot": (["line", "pithist", "igncontrib", "obsfcst", "qq", "freq", "roc", "timeseries", "scatter", "marginal", "spreadskill", "error", "cond"], st.sampled_from([45.0, 60.0])),
+    "xrot": (["bar", "line", "pithist", "igncontrib", "obsfcst", "qq", "freq", "roc", "timeseries", "scatter", "marginal", "spreadskill", "error", "cond"], st.sampled_from([45.0, 90.0, 30.0, 0.0])),
+    "yrot": (["line", "pithist", "igncontrib", "obsfcst", "qq", "freq", "roc", "timeseries", "scatter", "marginal", "spreadskill", "error", "cond"], st.sampled_from([45.0, 60.0, 0.0, 90.0])),
     "xlog": (["line"], st.just(True)),
     "ylog": (["line"], st.just(True)),
     "leg": (["line", "igncontrib"], st.sampled_from([["A", "B_c", "D"], ["new_run", "old", "x"]])),
@@ -471,21 +471,39 @@ def check_styles(case, ctx):
                     break
 
 
-def text_items(tier):
-    """Every kind of figure x every text option x {a text, the empty text (= remove it)}, one option at a time."""
+def _values_of(strategy):
+    w = getattr(strategy, "wrapped_strategy", strategy)
+    if hasattr(w, "elements"):
+        return list(w.elements)
+    if hasattr(w, "value"):
+        return [w.value]
+    raise TypeError("cannot enumerate %r" % (strategy,))
+
+
+def single_items(tier):
+    """Every kind of figure x every option it is generated for x every value of that option, one option at a time
+    (plus the option it needs: tick labels with their ticks, -afs with -a)."""
     items = []
     for kind in sorted(set(KINDS)):
-        for opt in ("title", "xlabel", "ylabel", "clabel"):
-            if kind not in OPTIONS[opt][0]:
+        for opt in sorted(OPTIONS):
+            kinds, strat = OPTIONS[opt]
+            if kind not in kinds:
                 continue
-            for val in ("Some text", ""):
-                items.append({"kind": kind, "shape": "full2", "opts": {opt: val}, "ext": "png"})
+            for val in _values_of(strat):
+                opts = {opt: val}
+                if opt == "xticklabels":
+                    opts["xticks"] = [1.0, 12.0, 24.0] if len(val) == 3 else [6.0, 18.0]
+                if opt == "yticklabels":
+                    opts["yticks"] = [0.5, 1.0, 2.0] if len(val) == 3 else [1.0, 4.0]
+                if opt == "afs":
+                    opts["a"] = True
+                items.append({"kind": kind, "shape": "full3" if opt in ("lc", "ls", "lw", "ma", "ms", "leg") else "full2", "opts": opts, "ext": "png"})
     return items
 
 
 def campaigns(tier):
     return [
-        Enum("texts", text_items, check_figure, "every kind of figure x -title/-xlabel/-ylabel/-clabel x {text, empty text}"),
-        Hyp("figures", strategy, check_figure, quick=720, thorough=40000, budget_quick=75, budget_thorough=2400),
+        Enum("single-options", single_items, check_figure, "every kind of figure x every option generated for it x every value, one option at a time"),
+        Hyp("figures", strategy, check_figure, quick=560, thorough=40000, budget_quick=75, budget_thorough=2400),
         Hyp("styles", styles_strategy, check_styles, quick=480, thorough=12000, budget_quick=40, budget_thorough=1200),
     ]
